@@ -87,7 +87,7 @@ func vpSpecTransform(s string, dims, vals []string) (out string, fail bool) {
 // token for the code iff transforming it with no replacements removes all of
 // it and reports an unknown token.
 func vpWholeTokenAgrees(s string) {
-	out, err := matrixInterpolator{replacements: map[string]string{}}.Transform(s)
+	out, err := newMatrixInterpolator(MatrixPermutation{}).Transform(s)
 	isToken := len(s) > 0 && out == "" && err != nil
 	vpAssert(isToken == vpReMatch(vpTokenSpec, s), "a string is one whole token for the code exactly when it is in the property's token language")
 }
